@@ -412,6 +412,7 @@ impl Pipeline {
             let pipeline_stats = self.stats.clone();
 
             let handle = tokio::spawn(async move {
+                let mut outcome: Result<()> = Ok(());
                 while let Some(item) = stage_input_rx.recv().await {
                     let start_time = Instant::now();
                     stage_stats.active_items.fetch_add(1, Ordering::Relaxed);
@@ -437,8 +438,14 @@ impl Pipeline {
                                 .total_processed
                                 .fetch_add(1, Ordering::Relaxed);
                         }
-                        Ok(Err(_)) | Err(_) => {
-                            // Stage failed or timed out
+                        Ok(Err(e)) => {
+                            // Stage failed: stop, and report it to the caller
+                            outcome = Err(e);
+                            break;
+                        }
+                        Err(_) => {
+                            // Stage timed out
+                            outcome = Err(ZiporaError::configuration("stage timeout"));
                             break;
                         }
                     }
@@ -449,17 +456,31 @@ impl Pipeline {
                 }
 
                 drop(output_tx); // Signal end of stream
+                outcome
             });
 
             handles.push(handle);
         }
 
-        // Wait for all stages to complete
+        // Wait for all stages to complete; a failed, timed-out or panicked stage
+        // surfaces as an error instead of a silently truncated output stream
+        let mut first_error: Option<ZiporaError> = None;
         for handle in handles {
-            let _ = handle.await;
+            let stage_result = match handle.await {
+                Ok(r) => r,
+                Err(e) => Err(ZiporaError::configuration(&format!("stage task failed: {}", e))),
+            };
+            if let Err(e) = stage_result {
+                if first_error.is_none() {
+                    first_error = Some(e);
+                }
+            }
         }
 
-        Ok(())
+        match first_error {
+            Some(e) => Err(e),
+            None => Ok(()),
+        }
     }
 
     /// Process a batch of items through a single stage
